@@ -9,6 +9,11 @@ import datetime as _dt
 import functools
 import zoneinfo
 
+# Only the tzdata package (a declared dependency of pendulum) answers zone lookups: the
+# machine's own /usr/share/zoneinfo must not leak into the simulation (it may be a different
+# tz release, and it contains pseudo-zones such as "localtime" that point back at /etc).
+zoneinfo.reset_tzpath(to=[])
+
 EPOCH = _dt.datetime(1970, 1, 1, tzinfo=_dt.timezone.utc)
 US = 10**6
 
@@ -17,6 +22,10 @@ US = 10**6
 def tzinfo(key):
     if isinstance(key, int):
         return _dt.timezone(_dt.timedelta(seconds=key))
+    if isinstance(key, tuple) and key[0] == "file":
+        import io
+
+        return zoneinfo.ZoneInfo.from_file(io.BytesIO(key[1]))
     return zoneinfo.ZoneInfo(key)
 
 
